@@ -1,10 +1,132 @@
-TB = "Trusted: go/ssa as the reading of the source, the gvc VC generator, the SMT solvers, the standard-library models (math, fmt, strconv, time: uninterpreted pure functions), mathematical int arithmetic; strings are abstract."
+TB = ("Trusted: go/packages + go/ssa (x/tools v0.29.0) as the reading of the source, the gvc VC generator, the SMT solvers "
+      "(z3 5.1, z3 4.8.12, cvc5 1.0), the standard-library models of gvc/models.go (math, fmt, strconv, time, reflect: uninterpreted or "
+      "axiomatised), mathematical int arithmetic, abstract string contents. Functions whose contract is `trusted`/`abstract` and every "
+      "havocked call are listed per run in the evidence file (assumptions). ")
+BS = ("The bounded stand-in is run-time checking of the stated contract on the real functions over an enumerated input space; it is labelled "
+      "bounded in the evidence and its evaluations are never counted as discharged obligations. ")
+TECH = "contract-based deductive verification (VC generation over go/ssa, SMT: z3/cvc5)"
+TECHB = TECH + " + labelled bounded stand-in (run-time contract checking over an enumerated space) for the functions outside the verifier's reach"
 CLAIMED = {
+ "C01": ("other",
+   "Deductive (all inputs): every value constructor, 40+ built-in closures and every VM handler (switch loop and generated call-threaded "
+   "handlers) return a value whose Go representation variant agrees with its recorded type and whose scalar payload is the specified one; "
+   "every unsafe variant cast on those paths is an obligation discharged from the typed precondition; object member read is by the value's "
+   "own field index (OBJ_LOAD); types.Equals == structural equality by field name (tyEq) incl. the memo set; immutability of type/value "
+   "fields by a frame scan. Whole-pipeline preservation (Check -> compiler -> evaluator) is NOT mechanised: it is covered by the bounded "
+   "stand-in (executable hasType on the results of 4 back ends, all programs <= 5 AST nodes over a fixed signature, random beyond).",
+   TB + BS, TECHB),
+ "C02": ("other",
+   "Deductive (all inputs): fails_iff / nopanic contracts: list/map subscripts, % (modzero), get-with-default total, VM stack Push/Pop "
+   "(growth, no underflow under the typed-stack precondition), operand-width assertions of the emitters (capacity), every nil / index / "
+   "cast / division check inside the 57 opcases, the generated handlers and the built-in closures under contract. The typed-stack "
+   "precondition of the handlers is assumed (it is C01/C11). Whole programs vs the reference outcome: bounded stand-in.",
+   TB + BS, TECHB),
+ "C03": ("other",
+   "Deductive (all inputs): each switch-loop opcase and the generated OP_X_Handler satisfy the same deterministic contract (pc advance, "
+   "stack effect, result value, lower stack unchanged); built-in closure and VM handler are proved against the same result expression "
+   "for the table-driven operators; NEW_LIST / NEW_OBJ / NEW_MAP (later duplicate key wins) / CALL_* argument order; call0 restores "
+   "pc/stack/code; emitter capacity failures. Equality of whole programs on 4 back ends incl. host-call traces: bounded stand-in. "
+   "Known finding F13 (call-threaded loop stops after 1024 instructions) is open.",
+   TB + BS, TECHB),
+ "C04": ("other",
+   "Deductive (all double bit patterns): numeric operators = IEEE RNE operations, tolerance comparisons (EPS as exact binary64), "
+   "%, abs/ceil/floor/round as roundToIntegral modes, bool/str/time comparisons, len, get/isset defaults, list min/max (partial), "
+   "NumVal.IsInt incl. the int64 range, each for the closure AND the VM handler. String-valued results (string(), union/intersect/diff "
+   "contents, match, literal decoding, strtotime) only by the bounded stand-in against an independent reference evaluator.",
+   TB + BS, TECHB),
+ "C05": ("other",
+   "Deductive: types.Equals/equals/equalsObj/equalsTuple/equalsFun == tyEq (the equality every typeAssert uses), panic containment of "
+   "types.Infer. The typing rules themselves (Check cases, overload resolution order, inferFun) are not under contract yet: they are "
+   "checked only by the bounded stand-in against an independent reference checker (well- and ill-typed programs, registration orders). "
+   "Known findings F19, F23 are open.",
+   TB + BS, TECHB),
+ "C06": ("other",
+   "Deductive (all inputs): ghost call-sequence contracts of if / and / or (condition once, then exactly the selected thunk, nothing "
+   "else), argument order of OP_CALL_BY_VALUE / BY_NEED / DYNAMIC_CALL and literal constructors in both dispatch loops, call0 frame, "
+   "JUMP / IF_TRUE semantics. Strict-argument loops of the closure compiler and the interpreter and whole-program traces: bounded "
+   "stand-in (trace equality, poisoned branches).",
+   TB + BS, TECHB),
+ "C07": ("other",
+   "Deductive: types.Equals == tyEq (what envCheck compares with), val.(*Env).Get total, envCheck and the Callable literal are panic-"
+   "contained (scan obligation: a recover handler is deferred before anything that may panic). The iff-characterisation of envCheck's "
+   "result is not under contract yet; accept/reject and non-evaluation on rejection are checked by the bounded stand-in over "
+   "(compile env, run env) pairs.",
+   TB + BS, TECHB),
  "C08": ("other",
-   "Deductive: the span contract of pos.Range (start of the first token, end of the last, line/col of the first) is proved for all inputs from the go/ssa of the current source. The Pratt core (binding powers, associativity) is not under contract yet.",
-   TB + " Parser core outside the verified subset.", "contract-based deductive verification (VC generation over go/ssa, SMT)"),
+   "Deductive (all inputs): pos.Range span contract (start of first token, end of last, line/col of the first; fails iff reversed). "
+   "The Pratt core (binding powers, associativity, non-associativity) is outside the verified subset (function tables, recover-based "
+   "backtracking): bounded stand-in against a reference precedence parser over operator tables x token strings x parenthesisations.",
+   TB + BS + "Parser core not under contract.", TECHB),
  "C09": ("other",
-   "Deductive: the cursor contract of (*Pos).Move (index +1, newline resets the column and bumps the line) is proved for all inputs. Lexer loop and rules not under contract yet.",
-   TB, "contract-based deductive verification (VC generation over go/ssa, SMT)"),
+   "Deductive (all inputs): (*Pos).Move cursor contract (index +1, newline resets column and bumps line). Lexer loop and regexp rules "
+   "are outside the verified subset: bounded stand-in against a reference maximal-munch lexer (all strings <= 4 over a 14-character "
+   "alphabet x 6 operator sets, random longer).",
+   TB + BS + "Lexer rules (regexp) not under contract.", TECHB),
+ "C10": ("other",
+   "Deductive: frame scan obligations - the structural fields of AST nodes are written only by their constructors (so Desugar leaves the "
+   "original tree untouched; slice elements of Args/Elems included). Desugar's functional contract (core forms, idempotence, order) is "
+   "not under contract yet: bounded stand-in (tree laws + sugared vs explicit evaluation). Known finding F20 is open.",
+   TB + BS, TECHB),
+ "C11": ("other",
+   "Deductive (all inputs): operand codec round trip (uint16ToByte/byteToUInt16, emitUint16/readUint16), emitters append exactly the "
+   "stated bytes and leave the prefix unchanged, back-patch closure writes exactly two bytes and fails iff the value exceeds 16 bits, "
+   "constant-pool index, every opcase advances pc by 1 + operand width and keeps sp within the stack. Stack-depth balance and forward "
+   "jumps of whole compiled programs: bounded stand-in (independent abstract interpreter over the emitted bytecode).",
+   TB + BS, TECHB),
+ "C12": ("other",
+   "Deductive (scan obligations over go/ssa): Eval, Debug, (*Expr).Compile, the Callable, envCheck, types.Infer, conv.ValOf/TypeOf never "
+   "let a panic escape: on every path a recover-based handler is deferred before the first instruction that may panic, or the "
+   "instruction is a call of a function with that property. conv.TypeEnvOf/ValEnvOf and the debug renderer are ASSUMED total (listed). "
+   "Termination / polynomial compile time is not expressible here: only the bounded stand-in (time budget per input) looks at it; "
+   "known finding F17 (exponential list/map literal parse) is open.",
+   TB + BS, TECHB),
+ "C13": ("other",
+   "Deductive (scan obligations over go/ssa, functions reachable from the API): the only write to process-wide state outside package "
+   "initialisation is tzCache under its mutex (plus the declared in-place sort of an already sorted slice); the only call that prints "
+   "is in the built-in print; AST structure fields and type/value fields are immutable after construction. Determinism of map "
+   "rendering and reusability of environments: bounded stand-in (interleaved histories, repeated evaluation).",
+   TB + BS, TECHB),
+ "C15": ("other",
+   "Deductive: conv.ValOf / TypeOf / valOfRV / typeOfRV are panic-contained (scan obligation). The conversion itself runs on package "
+   "reflect, for which gvc has no model: faithfulness, type agreement and error cases are checked only by the bounded stand-in over "
+   "reflection-generated Go values.",
+   TB + BS + "reflect not modelled.", TECHB),
+ "C16": ("other",
+   "Deductive (all inputs): GetOrDefault returns the payload iff present else the default (closure GET_MAYBE and OP_GET_MAYBE in both "
+   "loops), never nil; type equality implies equal kind (tyEq unfolding inside types.equals) so an optional is never equal to its "
+   "payload type. That no other built-in accepts an optional, and absence never reaches a run-time access: bounded stand-in.",
+   TB + BS, TECHB),
+ "C17": ("other",
+   "Deductive (all type trees, unbounded): types.Equals/equals/equalsObj/equalsTuple/equalsFun return exactly tyEq (structural, object "
+   "fields by name) with the in-process memo set proved sound (a remembered pair is equal or belongs to an enclosing comparison); "
+   "util.PtrPtrSet Add/Contains are given their set meaning as a trusted contract; well-formedness of type trees (variant tag = Kind, "
+   "consistent field index, components allocated before their parent) is the precondition. Unification laws (soundness of the "
+   "substitution, occurs check, matching completeness): bounded stand-in. Known finding F24 is open.",
+   TB + BS, TECHB),
+ "C18": ("other",
+   "Deductive (all doubles): NumEQ/NumNE as |x-y| < EPS / >= EPS, IsInt includes the int64 range (what keeps number rendering and "
+   "keying injective), the ==/!= handlers and closures on num/bool/str/time. val.Equals, String and Key are assumed (trusted / "
+   "abstract) at their call sites. Agreement of ==, key identity, set membership and rendering on value pairs: bounded stand-in. "
+   "Known findings F12, F22 are open.",
+   TB + BS, TECHB),
+ "C19": ("other",
+   "Deductive: Debug is panic-contained up to the assumed-total renderer (scan obligation). Recording order/columns and equality "
+   "with normal evaluation: bounded stand-in (Debug vs Eval, record entries via a read-only hook, renderer robustness).",
+   TB + BS, TECHB),
+ "C20": ("other",
+   "No function of ext/sql is under contract yet; the property is checked only by the bounded stand-in (criteria trees to depth 3, "
+   "adversarial operand strings, output re-read by a reference SQL boolean reader). Claimed at the bounded level only.",
+   TB + BS, "labelled bounded stand-in of the contract (run-time contract checking over an enumerated space); no deductive obligation yet"),
 }
-NOT_CLAIMED = {}
+CLAIMED["C14"] = ("other",
+   "PARTIAL. Deductive (scan obligations over go/ssa, functions reachable from the API): footprint condition only - every write to "
+   "process-wide state (package variables, variables captured by closures created at initialisation) outside package initialisation "
+   "is made while holding a package-level mutex or by a declared writer with a stated no-write argument; everything else a compile or "
+   "an invocation writes is allocated by the call or reachable from its own engine / arguments. This is the sufficient condition for "
+   "independent engines not to interfere; it found F11 (unsynchronised type-variable counter, fixed). Goroutine schedules, the Go "
+   "memory model and cgo internals are NOT decided by any contract here; there is no bounded stand-in (a race-detector run would be a "
+   "different technique).",
+   TB + "Schedules / interleavings not decided.", TECH + " (frame / footprint summary only)")
+NOT_CLAIMED = {
+ "C14_unused": "Sequential function contracts cannot quantify over goroutine schedules. What the technique can give is the footprint half: the frame scan used for C13 shows that no function reachable from the API writes process-wide state outside a held mutex (F11, the unsynchronised type-variable counter, was found by it and is fixed). Absence of data races for all interleavings does not follow from any contract the verifier can discharge, so the property is not claimed.",
+}
